@@ -33,6 +33,42 @@ pub fn run_misc(toks: &[&str]) -> String {
             g.to_aml_bytes(&mut v);
             format!("{} {}", hex(&v), hex(g.as_bytes()))
         }
+        // the static `len()` helpers against the size actually serialised (C02)
+        "lens" => {
+            let mut v = Vec::new();
+            acpi_tables::rsdp::Rsdp::new([1, 2, 3, 4, 5, 6], 0x1000).to_aml_bytes(&mut v);
+            let rsdp = v.len();
+            v.clear();
+            GAS::new(acpi_tables::gas::AddressSpace::SystemMemory, 8, 0, AccessSize::ByteAccess, 5).to_aml_bytes(&mut v);
+            let gas = v.len();
+            v.clear();
+            acpi_tables::facs::FACS::new().to_aml_bytes(&mut v);
+            let facs = v.len();
+            v.clear();
+            acpi_tables::tpm2::TpmServer1_2::new([1, 2, 3, 4, 5, 6], [1, 2, 3, 4, 5, 6, 7, 8], 1).to_aml_bytes(&mut v);
+            let tcpas = v.len();
+            format!("{}.{} {}.{} {}.{} {}.{}", acpi_tables::rsdp::Rsdp::len(), rsdp, GAS::len(), gas,
+                acpi_tables::facs::FACS::len(), facs, acpi_tables::tpm2::TpmServer1_2::len(), tcpas)
+        }
+        // `Path::from(&str)` against `Path::new` (C15: interchangeable construction paths)
+        "pathfrom" => {
+            let st = String::from_utf8(unhex(toks[1])).unwrap();
+            let a = std::panic::catch_unwind(|| { let mut v = Vec::new(); acpi_tables::aml::Path::new(&st).to_aml_bytes(&mut v); v });
+            let b = std::panic::catch_unwind(|| { let mut v = Vec::new(); acpi_tables::aml::Path::from(st.as_str()).to_aml_bytes(&mut v); v });
+            let f = |x: Result<Vec<u8>, _>| match x { Ok(v) => hex(&v), Err(_) => "panic".to_string() };
+            format!("{} {}", f(a), f(b))
+        }
+        // `PackageBuilder::default()` against `PackageBuilder::new()`, k integer elements
+        "pkgdefault" => {
+            let k: u64 = n(toks[1]);
+            let mut a = acpi_tables::aml::PackageBuilder::new();
+            let mut b = acpi_tables::aml::PackageBuilder::default();
+            for i in 0..k { a.add_element(&(i * 37)); b.add_element(&(i * 37)); }
+            let (mut va, mut vb) = (Vec::new(), Vec::new());
+            a.to_aml_bytes(&mut va);
+            b.to_aml_bytes(&mut vb);
+            format!("{} {}", hex(&va), hex(&vb))
+        }
         _ => panic!("misc case"),
     }
 }
@@ -45,6 +81,11 @@ pub fn gen_misc(r: &mut Rng, tier: &str, emit: &mut dyn FnMut(String)) {
             emit(format!("gaddr mmio {} {}", ts, r.scalar(64)));
         }
     }
+    emit("lens".to_string());
+    for st in ["ABCD", "\\ABCD", "_SB_.PCI0", "\\_SB_.PCI0.A___", "A.B", "", "ABCDE", "\\", "_SB_.PCI0.LNKA.X___.Y___"] {
+        emit(format!("pathfrom {}", if st.is_empty() { "-".to_string() } else { hex(st.as_bytes()) }));
+    }
+    for k in [0u64, 1, 2, 17, 254, 255] { emit(format!("pkgdefault {}", k)); }
     for _ in 0..2000 * k {
         emit(format!("gaspci {} {} {} {} {}", r.scalar(8), r.below(5), r.scalar(8), r.scalar(8), r.scalar(16)));
     }
